@@ -358,7 +358,7 @@ func TestC08(t *testing.T) {
 	if s.replay(t) {
 		return
 	}
-	rapidCheck(t, "extprog", tierN(600, 40000), func(rt *rapid.T) {
+	rapidCheck(t, "extprog", tierN(1200, 40000), func(rt *rapid.T) {
 		p := extProg{Backend: rapid.SampledFrom([]string{"eng", "r1cs", "r1cs", "scs"}).Draw(rt, "backend"), Mode: rapid.IntRange(0, 1).Draw(rt, "mode")}
 		n := rapid.IntRange(1, 3).Draw(rt, "inputs")
 		for i := 0; i < n; i++ {
@@ -395,7 +395,7 @@ func TestC08(t *testing.T) {
 		}
 		return rapid.Uint64().Draw(rt, "e")
 	}
-	rapidCheck(t, "ext", tierN(10000, 220000), func(rt *rapid.T) {
+	rapidCheck(t, "ext", tierN(20000, 220000), func(rt *rapid.T) {
 		op := rapid.SampledFrom(ops).Draw(rt, "op")
 		c := c08Case{Op: op, Mode: int(genMode().Draw(rt, "mode"))}
 		ge := func() [2]uint64 {
